@@ -121,6 +121,7 @@ pub enum Atom {
     Prefix(&'static str),
     Indent,
     Decl,
+    DeclForm(usize),
     DefaultStartEnd,
     Pad(usize),
     Comment(usize, usize),
@@ -146,6 +147,10 @@ fn style_of(atoms: &[Atom], kind: Kind) -> Style {
             }
             Atom::Indent => st.indent = true,
             Atom::Decl => st.decl = true,
+            Atom::DeclForm(f) => {
+                st.decl = true;
+                st.decl_form = *f;
+            }
             Atom::DefaultStartEnd => st.default_start_end = true,
             Atom::Pad(s) => st.pad_token.push(*s),
             Atom::Comment(s, p) => st.comments.push((*s, *p)),
@@ -164,7 +169,7 @@ fn style_of(atoms: &[Atom], kind: Kind) -> Style {
 
 /// every single rewrite applicable to `tree`
 fn atoms_for(tree: &N) -> Vec<Atom> {
-    let mut v = vec![Atom::Indent, Atom::Decl];
+    let mut v = vec![Atom::Indent, Atom::Decl, Atom::DeclForm(1), Atom::DeclForm(2), Atom::DeclForm(3), Atom::DeclForm(4)];
     let sites = dom::sites(tree);
     let mut nss: Vec<&'static str> = Vec::new();
     for (_, n, _) in &sites {
@@ -228,6 +233,7 @@ fn atom_label(a: &Atom, tree: &N) -> String {
         Atom::Prefix(ns) => format!("prefix-for-{}", match *ns { BASE => "base", XNM => "xnm", JCMD => "jcmd", _ => "other" }),
         Atom::Indent => "inter-element-whitespace".into(),
         Atom::Decl => "xml-declaration".into(),
+        Atom::DeclForm(f) => format!("xml-declaration:{}", ["upper-case-encoding", "lower-case-encoding", "single-quotes-mixed-case-standalone", "version-only", "extra-white-space"][f % 5]),
         Atom::DefaultStartEnd => "all-empty-elements-as-start-end".into(),
         Atom::Pad(s) => format!("{}:whitespace-around-token", name(*s)),
         Atom::Comment(s, p) => format!("{}:comment", parent_child(*s, *p)),
@@ -465,7 +471,46 @@ pub fn run_c13(cfg: &Cfg) -> i32 {
 fn mutate(r: &mut Prng, input: &[u8], other: &[u8]) -> (Vec<u8>, &'static str) {
     let mut v = input.to_vec();
     let len = v.len().max(1);
-    match r.below(17) {
+    match r.below(18) {
+        17 => {
+            // the query part of a URI in element content (capability parameters: ?scheme=...,
+            // ?module=...&revision=...) rewritten from a small grammar of parameter lists: names
+            // without '=', empty names and values, repeated and unknown parameters, stray separators
+            let s = String::from_utf8_lossy(&v).into_owned();
+            let qs: Vec<usize> = s.match_indices('?').map(|(i, _)| i).filter(|i| *i > 1 && !s[..*i].ends_with('<') && !s[*i..].starts_with("?>")).collect();
+            let ends: Vec<usize> = s.match_indices("</").map(|(i, _)| i).collect();
+            let (at, end) = if !qs.is_empty() {
+                let q = qs[r.below(qs.len())];
+                (q, s[q..].find('<').map_or(s.len(), |e| q + e))
+            } else if !ends.is_empty() {
+                // no query anywhere: append one to the content of some element
+                let e = ends[r.below(ends.len())];
+                (e, e)
+            } else {
+                return (v, "uri-query");
+            };
+            let names = ["scheme", "scheme", "module", "revision", "features", "deviations", "basic-mode", "also-supported", "x", ""];
+            let values = ["http,ftp,file", "file", "", ",", ",,", "http,", "=", "a=b", "%", "%2", "%zz", "\u{e9}", "2014-01-01"];
+            let mut q = String::from("?");
+            for k in 0..r.below(5) {
+                if k > 0 {
+                    q.push_str(*r.pick(&["&amp;", "&amp;", ";", "&amp;&amp;", "?"]));
+                }
+                q.push_str(*r.pick(&names));
+                match r.below(4) {
+                    0 => {}
+                    1 => q.push('='),
+                    _ => {
+                        q.push('=');
+                        q.push_str(*r.pick(&values));
+                    }
+                }
+            }
+            let mut o = s[..at].to_string();
+            o.push_str(&q);
+            o.push_str(&s[end..]);
+            return (o.into_bytes(), "uri-query");
+        }
         16 => {
             // a run of multi-byte characters (valid UTF-8) of arbitrary length inside element
             // content, at an arbitrary byte alignment: puts character boundaries off every
